@@ -322,7 +322,7 @@ type c20Spec struct {
 	UBeh       int  // 0..8 (see c20Unmarshal)
 	DataRight  bool // marshal: expected Data equals the marshaler's output
 	ValueRight bool // unmarshal: expected Value equals what the unmarshaler sets for behaviour 0
-	ErrKind    int  // 0 none, 1 AnyError, 2 Error(exact), 3 Error(other), 4 prefix hit, 5 prefix miss, 6 suffix hit, 7 suffix miss, 8 match hit, 9 match miss, 10 invalid pattern
+	ErrKind    int  // 0 none, 1 AnyError, 2 Error(exact), 3 Error(other), 4 prefix hit, 5 prefix miss, 6 suffix hit, 7 suffix miss, 8 match hit, 9 match miss, 10 invalid pattern, 11 hand-written, content with anything
 	Before     int  // 0 nil, 1 pass, 2 returns error, 3 panics
 	After      int
 	NilValue   bool // T = *SP only: Value is a nil pointer (unmarshal-only cases)
@@ -353,6 +353,8 @@ func c20ErrFunc(s c20Spec) test.AssertErrorFunc {
 		return test.ErrorMatch(`^nope$`)
 	case 10:
 		return test.ErrorMatch(`ab(.`)
+	case 11: // a hand-written predicate for an optional error: content with any error and with none
+		return func(t test.TestingT, err error, failInfo string) bool { return true }
 	}
 	return nil
 }
@@ -488,6 +490,12 @@ func c20JudgeCase(s c20Spec, marshalDir bool) (applicable bool, j c20Judgement) 
 	if s.ErrKind != 0 {
 		if panics {
 			return true, c20Judgement{oOpen, "panic judged by an error predicate"}
+		}
+		if s.ErrKind == 11 { // the predicate is met whatever comes; what remains is "no result alongside an expected error"
+			if hasResult {
+				return true, c20Judgement{oFail, "non-empty result alongside an expected error"}
+			}
+			return true, c20Judgement{oPass, "optional error"}
 		}
 		if !hasErr {
 			return true, c20Judgement{oFail, "missing error"}
@@ -886,11 +894,16 @@ func c20GenSpec(r *rt.Rand, id int) c20Spec {
 		s.ErrKind = []int{1, 2, 4, 6, 8}[r.Intn(5)]
 		s.MBeh, s.UBeh = 1, 2
 	case 1: // expects an error with an arbitrary predicate and arbitrary behaviour
-		s.ErrKind = 1 + r.Intn(10)
+		s.ErrKind = 1 + r.Intn(11)
 		s.MBeh, s.UBeh = r.Intn(7), r.Intn(10)
 	case 2: // expects the plain text and gets an error that only wraps it
 		s.ErrKind = []int{2, 4, 6, 8, 1}[r.Intn(5)]
 		s.MBeh, s.UBeh = 4, 5
+	case 3: // an optional error (hand-written predicate) and a method that returns a result without an error
+		if r.Chance(1, 3) {
+			s.ErrKind = 11
+			s.MBeh, s.UBeh = 0, r.Intn(2)
+		}
 	}
 	if r.Chance(1, 4) {
 		s.Before = r.Intn(8)
@@ -925,7 +938,7 @@ func c20GenSpec(r *rt.Rand, id int) c20Spec {
 func runC20(c *rt.Ctx) {
 	nLists := c.Pick(60000, 3000000)
 	c.SetRule(fmt.Sprintf("%d seeded case lists of length 0..6 over scripted types (value type with pointer-receiver Unmarshal*, pointer type, type lacking the interfaces) whose Marshal*/Unmarshal* behave per the payload (right data, wrong data, a value that differs in one field only, error, wrapped error, non-nil error holding a nil pointer, error with data/value, panic); a type whose own Equal/Compare/String look at part of the value only; ", nLists) +
-		"cases vary constraint, expected data/value right or wrong, eleven error-predicate variants (AnyError, Error exact/other, prefix/suffix hit/miss, regexp hit/miss/invalid), Before/After hooks (nil, pass, error, panic), nil pointer values, with and without a TypeHelper; each list is run whole and case by case through all six helpers with a recording TestingT whose FailNow does not unwind, inside a panic guard. " +
+		"cases vary constraint, expected data/value right or wrong, twelve error-predicate variants (AnyError, Error exact/other, prefix/suffix hit/miss, regexp hit/miss/invalid, a hand-written predicate content with any outcome), Before/After hooks (nil, pass, error, panic), nil pointer values, with and without a TypeHelper; each list is run whole and case by case through all six helpers with a recording TestingT whose FailNow does not unwind, inside a panic guard. " +
 		"distinct_nontrivial counts distinct (helper, type, list) runs (by hash) in which exactly one condition is unmet")
 	c.Assume("oracle is an independent re-statement of the helper contract (harness c20JudgeCase/c20JudgeList); testify's ObjectsAreEqual/Empty semantics are avoided by never generating empty payloads")
 	{
